@@ -1,11 +1,11 @@
 """C05 configuration for ./check (see checks/propcfg.py for the keys)."""
 CFG = {
-    "modules": ["VaxisModel.Props.C05", "VaxisModel.Props.C05Events", "VaxisModel.Props.C05Draw",
+    "modules": ["VaxisModel.Props.C05", "VaxisModel.Props.C05Events", "VaxisModel.Props.C05Draw", "VaxisModel.Witness.F105g",
                 "VaxisModel.Witness.F15", "VaxisModel.Witness.F16", "VaxisModel.Witness.F17", "VaxisModel.Witness.F18",
                 "VaxisModel.Witness.F19", "VaxisModel.Witness.F20", "VaxisModel.Witness.F105a", "VaxisModel.Witness.F105b",
                 "VaxisModel.Witness.F105c", "VaxisModel.Witness.F105d", "VaxisModel.Witness.F105e", "VaxisModel.Witness.F105f"],
     "extractors": ["C05"],
-    "drivers": ["C05", "C05Events"],
+    "drivers": ["C05", "C05Events", "C05Draw"],
     "stateful": True,
     "trivial_prefix": ("-",),
     "rule": "C05: cases = `new W H` + ops on a PTY-less term.Model (hooks VerifNew/VerifFeed/VerifResize/VerifSnapshot); after EVERY op the "
